@@ -53,8 +53,23 @@ pub fn exercise(case: &Case, _idx: u64) -> Obs {
     let c = alloc::read();
     let wall = t0.elapsed().as_micros() as u64;
     let n = res.len() as u64;
+    // executable model of the recorded quadratic-copy defect: every decoded packet copies the bytes that follow it
+    // (ParsedNetflow.remaining); cursor walk with the wire length implied by each returned packet
+    let mut known_copy = 0u64;
+    let mut o = 0usize;
+    for e in &res {
+        let len = match e {
+            netflow_parser::NetflowPacket::V5(x) => 24 + 48 * x.header.count as usize,
+            netflow_parser::NetflowPacket::V7(x) => 24 + 52 * x.header.count as usize,
+            netflow_parser::NetflowPacket::V9(x) => 20 + x.flowsets.iter().map(|s| (s.header.length as usize).max(4)).sum::<usize>(),
+            netflow_parser::NetflowPacket::IPFix(x) => (x.header.length as usize).max(16),
+            netflow_parser::NetflowPacket::Error(_) => break,
+        };
+        o = (o + len).min(case.input.len());
+        known_copy += (case.input.len() - o) as u64;
+    }
     drop(res);
-    Obs { key: crate::util::h64(&(c.total, c.peak, n)) | 1, panic: None, meas: vec![case.input.len() as u64, w, c.total, c.peak.max(0) as u64, c.live.max(0) as u64, wall], issues: vec![] }
+    Obs { key: crate::util::h64(&(c.total, c.peak, n)) | 1, panic: None, meas: vec![case.input.len() as u64, w, c.total, c.peak.max(0) as u64, c.live.max(0) as u64, wall, known_copy], issues: vec![] }
 }
 
 pub fn families(tier: &str) -> Vec<(Arc<dyn Family>, Option<Vec<(String, usize)>>)> {
@@ -123,22 +138,39 @@ impl C15Space {
         }
         // growth law over each ladder rung: allocation per byte of input+output must not grow with n
         if let Some(labels) = &self.labels {
-            let mut by_rung: BTreeMap<&str, Vec<(usize, u64, f64, u64)>> = BTreeMap::new();
+            let mut by_rung: BTreeMap<&str, Vec<(usize, u64, f64, f64, u64)>> = BTreeMap::new();
             for (idx, ms) in &r.meas {
                 let (name, n) = &labels[*idx as usize];
                 let s = (ms[0] + ms[4]).max(1);
                 // one decode attempt materialises an entry per template field before it can fail: linear in W, allowed for as in the peak law
-                by_rung.entry(name.as_str()).or_default().push((*n, ms[0], ms[2].saturating_sub(PEAK_W * ms[1]) as f64 / s as f64, *idx));
+                let t = ms[2].saturating_sub(PEAK_W * ms[1]);
+                // ... and what the recorded per-packet copy of the remaining buffer explains (ms[6]) is taken out for the second ratio
+                let known = ms.get(6).cloned().unwrap_or(0);
+                by_rung.entry(name.as_str()).or_default().push((*n, ms[0], t as f64 / s as f64, t.saturating_sub(known) as f64 / s as f64, *idx));
             }
             for (name, mut pts) in by_rung {
                 pts.sort_by_key(|p| p.0);
                 let mut best: Option<(usize, f64)> = None;
-                for (n, x, ratio, idx) in pts {
+                let mut best_x: Option<(usize, f64)> = None;
+                for (n, x, ratio, ratio_x, idx) in pts {
                     if x < GROWTH_MIN_INPUT {
                         continue;
                     }
+                    // beyond the recorded copy first: a second super-linear cost on top of the known one has its own signature
+                    let mut beyond = false;
+                    if let Some((n0, r0)) = best_x {
+                        if ratio_x > GROWTH * r0.max(1.0) {
+                            beyond = true;
+                            add(format!("growth-law-beyond-the-recorded-copy/{}", name), idx, format!("allocated bytes per byte of (input + result), NOT counting the recorded per-packet copy of the remaining buffer, grow from {:.2} at n={} to {:.2} at n={} (more than {}x): super-linear cost", r0, n0, ratio_x, n, GROWTH));
+                        }
+                        if ratio_x < r0 {
+                            best_x = Some((n, ratio_x));
+                        }
+                    } else {
+                        best_x = Some((n, ratio_x));
+                    }
                     if let Some((n0, r0)) = best {
-                        if ratio > GROWTH * r0 {
+                        if ratio > GROWTH * r0 && !beyond {
                             add(format!("growth-law/{}", name), idx, format!("allocated bytes per byte of (input + result) grow from {:.2} at n={} to {:.2} at n={} (more than {}x): super-linear cost", r0, n0, ratio, n, GROWTH));
                         }
                         if ratio < r0 {
